@@ -3,11 +3,12 @@
 package consensus
 
 import (
-	stdbytes "bytes"
 	"math/bits"
 
 	"github.com/LiskHQ/lisk-engine/pkg/blockchain"
+	"github.com/LiskHQ/lisk-engine/pkg/codec"
 	"github.com/LiskHQ/lisk-engine/pkg/consensus/certificate"
+	"github.com/LiskHQ/lisk-engine/pkg/p2p"
 )
 
 // C06.a: height window of verifyAggregateCommit.
@@ -75,12 +76,12 @@ func zzH_C06_commit_height_window(t *zzT) {
 // n <= 3 validators with symbolic relative BLS-key order, symbolic weights (full 64 bit) and
 // thresholds for two parameter sets (set B in force from height 4 or - thorough tier - only from
 // height 7; the commit is at height 5; quick tier: n = 3 only), symbolic bitmap of 0..2 bytes, arbitrary signature token, the signed certificate may
-// differ from the node's own block (block ID byte) or chain ID. Asserted: accept => the validators
+// differ from the node's own block (block ID) or chain ID. Asserted: accept => the validators
 // flagged in ascending-key order (LIP-0061) carry weight >= the threshold of the parameters in force
 // at the commit height, the signers are exactly the flagged validators, and what was signed is the
 // certificate of the node's own block under the node's chain ID.
 //
-//zz:opt loop=24 require=accepted,rejected
+//zz:opt loop=80 require=accepted,rejected
 //zz:quick NMIN=3 N=3 BAT=1
 //zz:thorough NMIN=1 N=3 BAT=2 budget=900s
 //zz:stub (*~/pkg/consensus/liskbft.API).GetBFTHeights zz06StubGetBFTHeights
@@ -110,13 +111,21 @@ func zzH_C06_commit_weights(t *zzT) {
 	}
 	e.setParams(e.setA, t.U64("setA.threshold"), wA)
 	e.setParams(e.setB, t.U64("setB.threshold"), wB)
-	e.ownID[0] = t.U8("own.blockID")
 	e.install(h)
 
-	signed := e.header(h)
-	signed.ID = append([]byte{t.U8("signed.blockID")}, e.ownID[1:]...)
-	signedChain := []byte{0, 0, 0, t.U8("signed.chainID")}
-	e.bls.msg = zz06CertMsg(signed, signedChain)
+	// What the validators signed: 0 = the certificate of the node's own block at height 5 under the
+	// node's chain ID, 1 = the certificate of another block at that height, 2 = the own block under
+	// another chain ID. (All three messages are concrete hashes; the selection is symbolic and
+	// branch-free, so no uninterpreted hash terms reach the solver.)
+	what := t.U8("signed.what")
+	t.Assume(what <= 2)
+	other := e.header(h)
+	other.ID = append([]byte{0xb2}, e.ownID[1:]...)
+	m0, m1, m2 := zz06CertMsg(e.header(h), e.chainID), zz06CertMsg(other, e.chainID), zz06CertMsg(e.header(h), []byte{0, 0, 0, 7})
+	e.bls.msg = make([]byte, len(m0))
+	for i := range m0 {
+		e.bls.msg[i] = byte(t.IteU64(what == 0, uint64(m0[i]), t.IteU64(what == 1, uint64(m1[i]), uint64(m2[i]))))
+	}
 	tag := t.U8("sig.tag")
 	counts := make([]byte, n)
 	for i := range counts {
@@ -132,31 +141,39 @@ func zzH_C06_commit_weights(t *zzT) {
 		return
 	}
 	p := e.paramsAt(h)
-	var lo, hi uint64
-	exact := tag == 1
+	// rank of every validator's key in ascending order (the sort inside verifyAggregateCommit has
+	// already decided the order on this path, so these branches do not multiply paths)
+	byRank := make([]int, n)
 	for i := 0; i < n; i++ {
-		// rank of validator i's key in ascending order (the sort inside verifyAggregateCommit has
-		// already decided the order on this path, so these branches do not multiply paths)
 		rank := 0
 		for j := 0; j < n; j++ {
 			if order[j] < order[i] {
 				rank++
 			}
 		}
-		// flagged: bit `rank` of the bitmap (little-endian bit order; missing bytes are unset bits)
-		f := false
-		if rank/8 < len(bitmap) {
-			f = (bitmap[rank/8]>>(uint(rank)%8))&1 == 1
+		byRank[rank] = i
+	}
+	var lo, hi uint64
+	exact := tag == 1
+	// (summed in rank order: 64-bit additions in another order than the implementation's make the
+	// equivalence needlessly hard for the SAT back end)
+	for r := 0; r < n; r++ {
+		i := byRank[r]
+		// flagged: bit r of the bitmap (little-endian bit order; missing bytes are unset bits)
+		// (a real branch: the implementation has already branched on this bit, so the infeasible side
+		// is pruned and the sum below is the same term the implementation compared)
+		if r/8 < len(bitmap) && (bitmap[r/8]>>(uint(r)%8))&1 == 1 {
+			var c uint64
+			lo, c = bits.Add64(lo, p.weights[i], 0)
+			hi += c
+			exact = t.And(exact, counts[i] == 1)
+		} else {
+			exact = t.And(exact, counts[i] == 0)
 		}
-		var c uint64
-		lo, c = bits.Add64(lo, t.IteU64(f, p.weights[i], 0), 0)
-		hi += c
-		exact = t.And(exact, counts[i] == byte(t.IteU64(f, 1, 0)))
 	}
 	t.Assert(t.Or(hi > 0, lo >= p.threshold), "accepted aggregate commit: flagged validators' weight reaches the certificate threshold of the commit height")
 	t.Assert(exact, "accepted aggregate commit: signed by exactly the flagged validators")
-	t.Assert(signed.ID[0] == e.ownID[0], "accepted aggregate commit: signed certificate is of the node's own block")
-	t.Assert(signedChain[3] == e.chainID[3], "accepted aggregate commit: signed under the node's chain ID")
+	t.Assert(what == 0, "accepted aggregate commit: what was signed is the certificate of the node's own block under the node's chain ID")
 	t.Reach("accepted")
 }
 
@@ -232,4 +249,208 @@ func zzH_C06_own_commit_accepted(t *zzT) {
 	t.Reach("empty")
 }
 
-var _ = stdbytes.Equal
+// C06.d: GetAggregateCommit picks the highest certifiable height h with maxHeightCertified < h <=
+// min(maxHeightPrecommited, nextParamsHeight-1) for which the pool holds single commits whose weight
+// (under the parameters in force at h) reaches that height's certificate threshold; otherwise the
+// empty commit at maxHeightCertified.
+//
+// Bounds: certified = 10; precommitted = certified + 0..3; a later parameter record (set B with own
+// weights / threshold) optionally at certified + 1..NO; two validators; 0..K pool commits (commit k by
+// validator k) at heights certified + 0..CO; weights < 2^60, thresholds symbolic.
+//
+//zz:opt loop=80 require=aggregated,empty
+//zz:quick K=2 NO=4 CO=3
+//zz:thorough K=2 NO=5 CO=4 budget=600s
+//zz:stub (*~/pkg/consensus/liskbft.API).GetBFTHeights zz06StubGetBFTHeights
+//zz:stub (*~/pkg/consensus/liskbft.API).NextHeightBFTParameters zz06StubNextHeightBFTParameters
+//zz:stub (*~/pkg/consensus/liskbft.API).GetBFTParameters zz06StubGetBFTParameters
+//zz:stub (*~/pkg/consensus/liskbft.BFTParams).Validators zz06StubValidators
+//zz:stub (*~/pkg/consensus/liskbft.BFTParams).CertificateThreshold zz06StubCertificateThreshold
+//zz:stub ~/pkg/crypto.BLSSign zz06StubBLSSign
+//zz:stub (*github.com/supranational/blst/bindings/go.P2Affine).Uncompress zz06StubP2Uncompress
+//zz:stub (*github.com/supranational/blst/bindings/go.P2Affine).Compress zz06StubP2Compress
+//zz:stub (*github.com/supranational/blst/bindings/go.P2Aggregate).Aggregate zz06StubAggregate
+//zz:stub (*github.com/supranational/blst/bindings/go.P2Aggregate).ToAffine zz06StubToAffine
+func zzH_C06_commit_height_choice(t *zzT) {
+	const n = 2
+	e := zz06NewEnv(t, n, []byte{1, 2})
+	e.certified = 10
+	e.precommitted = e.certified + uint32(t.Range("precommitted.off", 0, 3))
+	e.prevoted = e.precommitted
+	e.hasNext = t.Bool("nextParams.exists")
+	e.nextH = e.certified + uint32(t.Range("nextParams.off", 1, t.Param("NO", 4)))
+	wA, wB := make([]uint64, n), make([]uint64, n)
+	for i := 0; i < n; i++ {
+		wA[i], wB[i] = t.U64(t.Name("setA.weight", i)), t.U64(t.Name("setB.weight", i))
+		t.Assume(wA[i] < 1<<60 && wB[i] < 1<<60)
+	}
+	e.setParams(e.setA, t.U64("setA.threshold"), wA)
+	e.setParams(e.setB, t.U64("setB.threshold"), wB)
+	e.install()
+	k := t.Range("commits", 0, t.Param("K", 2))
+	heights := make([]uint32, k)
+	for i := 0; i < k; i++ {
+		heights[i] = e.certified + uint32(t.Range(t.Name("commit.off", i), 0, t.Param("CO", 3)))
+		hd := e.header(heights[i])
+		if i == 0 {
+			e.bls.msg = zz06CertMsg(hd, e.chainID)
+		}
+		e.ex.certificatePool.Add(certificate.NewSingleCommit(hd, zz06Addr(i), e.chainID, e.bls.sks[i]))
+	}
+
+	ac, err := e.ex.GetAggregateCommit()
+	t.Assert(err == nil && ac != nil, "GetAggregateCommit succeeds")
+	if err != nil || ac == nil {
+		return
+	}
+	limit := e.precommitted
+	if e.hasNext && e.nextH > e.certified+1 && e.nextH-1 < limit {
+		limit = e.nextH - 1
+	}
+	expected, found := e.certified, false
+	for hh := limit; hh > e.certified && !found; hh-- {
+		p := e.paramsAt(hh)
+		var w uint64
+		cnt := 0
+		for i := 0; i < k; i++ {
+			if heights[i] == hh {
+				w += p.weights[i]
+				cnt++
+			}
+		}
+		if cnt > 0 && w >= p.threshold {
+			expected, found = hh, true
+		}
+	}
+	t.Assert(ac.Height == expected, "GetAggregateCommit picks the highest certifiable height within (maxHeightCertified, min(maxHeightPrecommited, nextParamsHeight-1)]")
+	t.ObserveU64("height", uint64(ac.Height))
+	if found {
+		t.Assert(len(ac.AggregationBits) > 0 && len(ac.CertificateSignature) > 0, "a certifiable height yields a non-empty aggregate commit")
+		t.Reach("aggregated")
+		return
+	}
+	t.Assert(len(ac.AggregationBits) == 0 && len(ac.CertificateSignature) == 0, "without certifiable height the commit is empty")
+	t.Reach("empty")
+}
+
+// C06.e: singleCommitValidator (LIP-0061 steps 1-7) on a message with one single commit.
+//
+// Symbolic (full 32 bit): maxHeightPrecommited, the removal height (aggregate-commit height of the
+// finalized block), the chain tip, the commit height, existence/height of a second parameter record;
+// commit: well-formed or one field one byte short, block ID own/foreign, signer one of the n
+// validators or a stranger, signature = arbitrary token; the commit may already be in the pool.
+// Asserted: never ValidationAccept; the commit enters the pool only if every step's condition holds.
+// Separately (own label, liveness - beyond the "only" of the property statement): a commit fulfilling
+// every LIP-0061 condition, with the stored range computed without wrap-around, does enter the pool.
+//
+//zz:opt loop=200 require=added,discarded
+//zz:quick N=2
+//zz:thorough N=3
+//zz:stub (*~/pkg/consensus/liskbft.API).GetBFTHeights zz06StubGetBFTHeights
+//zz:stub (*~/pkg/consensus/liskbft.API).ExistBFTParameters zz06StubExistBFTParameters
+//zz:stub (*~/pkg/consensus/liskbft.API).GetBFTParameters zz06StubGetBFTParameters
+//zz:stub (*~/pkg/consensus/liskbft.BFTParams).Validators zz06StubValidators
+//zz:stub (*~/pkg/blockchain.DataAccess).GetBlockHeaderByHeight zz06StubGetBlockHeaderByHeight
+//zz:stub (*github.com/supranational/blst/bindings/go.P1Affine).Uncompress zz06StubP1Uncompress
+//zz:stub (*github.com/supranational/blst/bindings/go.P2Affine).Uncompress zz06StubP2Uncompress
+//zz:stub (*github.com/supranational/blst/bindings/go.P2Affine).Verify zz06StubVerify
+func zzH_C06_single_commit_validator(t *zzT) {
+	n := t.Param("N", 2)
+	order := []byte{1, 2, 3}
+	e := zz06NewEnv(t, n, order[:n])
+	e.precommitted = t.U32("maxHeightPrecommited")
+	e.prevoted, e.certified = e.precommitted, 0
+	e.removalHeight = t.U32("removalHeight")
+	e.tip = t.U32("tip")
+	t.Assume(e.tip >= e.precommitted)
+	e.hasNext = t.Bool("params2.exists")
+	e.nextH = t.U32("params2.height")
+	t.Assume(e.nextH >= 1)
+	ws := []uint64{1, 1, 1}
+	e.setParams(e.setA, 1, ws[:n])
+	e.setParams(e.setB, 1, ws[:n])
+	h := t.U32("commit.height")
+	e.install()
+	e.storeHeaders(e.precommitted, h)
+	e.bls.msg = zz06CertMsg(e.header(h), e.chainID)
+
+	// the deviations are explored one at a time (they are independent early exits of the validator)
+	malformed := t.Choice("malformed", 4)
+	already, ownBlock, signer := false, true, 0
+	if malformed == 0 {
+		already = t.Bool("already in pool")
+		if !already {
+			ownBlock = t.Bool("commit.ownBlock")
+			signer = t.Choice("commit.signer", n+1) // n = not a validator
+		}
+	}
+	blockID := append([]byte{}, e.header(h).ID...)
+	if !ownBlock {
+		blockID[5] ^= 0x01
+	}
+	addr := zz06Addr(signer)
+	tag := t.U8("sig.tag")
+	counts := make([]byte, n)
+	for i := range counts {
+		counts[i] = t.U8(t.Name("sig.count", i))
+		t.Assume(counts[i] <= 2)
+	}
+	sig := e.bls.token(tag, counts)
+	switch malformed {
+	case 1:
+		blockID = blockID[:31]
+	case 2:
+		addr = addr[:19]
+	case 3:
+		sig = sig[:95]
+	}
+	cw := codec.NewWriter()
+	cw.WriteBytes(1, blockID)
+	cw.WriteUInt32(2, h)
+	cw.WriteBytes(3, addr)
+	cw.WriteBytes(4, sig)
+	ew := codec.NewWriter()
+	ew.WriteBytes(1, cw.Result())
+	sc := &certificate.SingleCommit{}
+	if err := sc.Decode(cw.Result()); err != nil {
+		t.Fail("harness: commit does not decode")
+	}
+	if t.Symbolic() {
+		// the same message, but with the height as the term the validator will decode from the wire
+		// (a varint re-assembled from bytes): keeps the two hash inputs syntactically identical, so
+		// the solver does not have to prove H(enc(h)) = H(enc(dec(enc(h))))
+		e.bls.msg = zz06CertMsg(e.header(sc.Height()), e.chainID)
+	}
+	if already {
+		e.ex.certificatePool.Add(sc)
+	}
+	before := e.ex.certificatePool.Size()
+
+	res := e.ex.singleCommitValidator(nil, &p2p.Message{Data: ew.Result()})
+	t.Assert(res != p2p.ValidationAccept, "singleCommitValidator never returns ValidationAccept")
+	added := e.ex.certificatePool.Size() - before
+	t.Assert(added == 0 || added == 1, "at most the one commit is added")
+
+	// (branch-free oracle)
+	inRange := t.And(uint64(h) <= uint64(e.precommitted), uint64(h)+uint64(certificate.CommitRangeStored) >= uint64(e.precommitted))
+	paramHeight := t.Or(h == 0, t.And(e.hasNext, h == e.nextH))
+	validSig := tag == 1
+	for i := 0; i < n; i++ {
+		want := byte(0)
+		if i == signer {
+			want = 1
+		}
+		validSig = t.And(validSig, counts[i] == want)
+	}
+	ok := t.And(malformed == 0 && !already && ownBlock && signer < n, t.And(h > e.removalHeight, t.And(t.Or(inRange, paramHeight), t.And(h <= e.tip, validSig))))
+	if added == 1 {
+		t.Assert(ok, "a single commit enters the pool only if it is well-formed, new, above the removal height, in the stored range or at a parameter-change height, for the own block, by an active validator and correctly signed")
+		t.Reach("added")
+		return
+	}
+	// liveness, split by region so that the wrap-around of maxHeightPrecommited-100 below height 100 is
+	// a finding of its own
+	t.Assert(t.Or(!ok, e.precommitted < certificate.CommitRangeStored), "a single commit fulfilling every LIP-0061 condition enters the pool (maxHeightPrecommited >= 100)")
+	t.Assert(t.Or(!ok, e.precommitted >= certificate.CommitRangeStored), "a single commit fulfilling every LIP-0061 condition enters the pool (first 100 heights: maxHeightPrecommited < 100)")
+	t.Reach("discarded")
+}
